@@ -10,6 +10,6 @@ CONSTANTS
   FnOwners = {}
   TwoModules = FALSE
   Ptrs = {8}
-INVARIANTS Inv_Passes
-PROPERTIES Termination
+INVARIANTS Inv_Passes LoopAbsInv
+PROPERTIES Termination RefinesLoopAbs
 CHECK_DEADLOCK TRUE
